@@ -126,6 +126,10 @@ func replay(reg core.Registry, v *core.Violation) int {
 					hits++
 					if hits == 1 {
 						fmt.Printf("reproduced: rule=%s attrs=%s\n", w.Rule, core.JSON(w.Attrs))
+						if f := os.Getenv("VH_DUMP"); f != "" {
+							b, _ := json.MarshalIndent(w, "", " ")
+							_ = os.WriteFile(f, b, 0o644)
+						}
 					}
 					break
 				}
